@@ -1064,3 +1064,122 @@ func rulePackageKeepsNoCache(c *core.Ctx, rule, rel string) {
 		c.PassTrivial(rule, "package-cache@"+rel, token.NoPos, "no package-level table is filled outside the initialiser in "+rel)
 	}
 }
+
+// rulePackageCacheKeys: where a package of the reflection codecs keeps a
+// table across calls (a memo of per-type work is legitimate there: the set of
+// Go types of a program is finite), the key identifies the type: it is the
+// reflect.Type itself (or a pair of them), never a rendering of it —
+// Type.String(), Name(), Kind() — under which two different types (homonymous
+// structs of two packages, two anonymous structs printed alike) collide and the
+// second is encoded, decoded or converted with the layout of the first.
+func rulePackageCacheKeys(c *core.Ctx, rule string, rels ...string) {
+	n := 0
+	lossy := func(v ssa.Value) string {
+		seen := map[ssa.Value]bool{}
+		var walk func(v ssa.Value) string
+		walk = func(v ssa.Value) string {
+			v = core.Canon(v)
+			if v == nil || seen[v] {
+				return ""
+			}
+			seen[v] = true
+			switch x := v.(type) {
+			case *ssa.MakeInterface:
+				return walk(x.X)
+			case *ssa.BinOp:
+				if s := walk(x.X); s != "" {
+					return s
+				}
+				return walk(x.Y)
+			case *ssa.Phi:
+				for _, e := range x.Edges {
+					if s := walk(e); s != "" {
+						return s
+					}
+				}
+			case *ssa.Convert:
+				return walk(x.X)
+			case *ssa.ChangeType:
+				return walk(x.X)
+			case *ssa.Call:
+				cc := x.Common()
+				name := ""
+				var recv types.Type
+				if cc.IsInvoke() {
+					name, recv = cc.Method.Name(), cc.Value.Type()
+				} else if f := cc.StaticCallee(); f != nil && f.Signature.Recv() != nil {
+					name, recv = f.Name(), f.Signature.Recv().Type()
+				}
+				if recv != nil && (core.TypeIs(recv, "reflect", "Type") || core.TypeIs(recv, "reflect", "rtype") || core.TypeIs(recv, "reflect", "Value")) {
+					switch name {
+					case "String", "Name", "Kind", "PkgPath":
+						return "reflect " + name + "()"
+					}
+				}
+				if f := cc.StaticCallee(); f != nil && (core.FuncKey(f) == "fmt.Sprintf" || core.FuncKey(f) == "fmt.Sprint") {
+					for _, a := range cc.Args {
+						if s := walk(a); s != "" {
+							return s
+						}
+					}
+				}
+			case *ssa.Slice:
+				return walk(x.X)
+			case *ssa.Alloc:
+				// the variadic argument slice of Sprintf: look at what is stored in it
+				for _, r := range core.Referrers(x) {
+					if ia, ok := r.(*ssa.IndexAddr); ok {
+						for _, r2 := range core.Referrers(ia) {
+							if st, ok := r2.(*ssa.Store); ok {
+								if s := walk(st.Val); s != "" {
+									return s
+								}
+							}
+						}
+					}
+				}
+			}
+			return ""
+		}
+		return walk(v)
+	}
+	for _, rel := range append(rels, core.WitnessDirName) {
+		for _, fn := range srcFuncsOfPkg(c, rel) {
+			if fn.Name() == "init" && fn.Parent() == nil {
+				continue
+			}
+			for _, b := range fn.Blocks {
+				for _, in := range b.Instrs {
+					var g *ssa.Global
+					var key ssa.Value
+					switch x := in.(type) {
+					case *ssa.MapUpdate:
+						if ld, ok := x.Map.(*ssa.UnOp); ok {
+							g, _ = ld.X.(*ssa.Global)
+							key = x.Key
+						}
+					case *ssa.Call:
+						f := x.Call.StaticCallee()
+						if f != nil && f.Signature.Recv() != nil && core.TypeIs(f.Signature.Recv().Type(), "sync", "Map") && (f.Name() == "Store" || f.Name() == "LoadOrStore" || f.Name() == "Swap") && len(x.Call.Args) > 1 {
+							g, _ = x.Call.Args[0].(*ssa.Global)
+							key = x.Call.Args[1]
+						}
+					}
+					if g == nil || g.Pkg != fn.Pkg || key == nil {
+						continue
+					}
+					n++
+					k := fmt.Sprintf("cache-key@%s/%s", rel, g.Name())
+					if how := lossy(key); how != "" {
+						c.Fail(rule, k, in.Pos(), fmt.Sprintf("%s fills the package-level table %s under a key made from %s: two different types that print alike (homonymous structs of two packages, anonymous structs) share an entry, and the second is handled with the field layout computed for the first", core.FuncKey(fn), g.Name(), how))
+					} else {
+						c.Pass(rule, k, in.Pos(), "the key of the table is not a rendering of a reflect.Type")
+					}
+				}
+			}
+		}
+	}
+	if n == 0 {
+		c.PassTrivial(rule, "cache-key@"+strings.Join(rels, ","), token.NoPos, "no package-level table is filled outside the initialisers of "+strings.Join(rels, ", "))
+	}
+}
